@@ -730,3 +730,139 @@ Lemma examples :
   ex_unreachable = FilterError.
 Proof. repeat split; vm_compute; reflexivity. Qed.
 End FloatExamples.
+
+(* ====================================================================================== *)
+(* end-to-end statements about id_pairs_from_delta, one per delta unit and mode          *)
+(* ====================================================================================== *)
+Section EndToEnd.
+Variables (ps : list (V3 R)) (das : list R) (ang : nat -> nat -> R).
+Variables (delta rel_tol : R) (dframes : nat) (l : list (nat * nat)).
+
+Lemma id_pairs_select u all_pairs :
+  id_pairs_from_delta PI ps das ang delta dframes u rel_tol all_pairs = Pairs l ->
+  l <> [] /\ select PI ps das ang delta dframes u rel_tol all_pairs = Pairs l.
+Proof.
+  intros H. pose proof (empty_is_error PI ps das ang delta dframes u rel_tol all_pairs) as E.
+  rewrite H in E. exact E.
+Qed.
+
+(* frames *)
+Theorem id_pairs_frames all_pairs :
+  id_pairs_from_delta PI ps das ang delta dframes DFrames rel_tol all_pairs = Pairs l ->
+  l = pairs_by_index (length ps) dframes all_pairs.
+Proof. intros H. destruct (id_pairs_select _ _ H) as [_ E]. rewrite select_dispatch in E. now injection E. Qed.
+
+(* meters, consecutive: the chain on the pose-to-pose distances *)
+Theorem id_pairs_meters_consecutive :
+  id_pairs_from_delta PI ps das ang delta dframes DMeters rel_tol false = Pairs l ->
+  let s := consec_steps ps in
+  let ids := chain_ids delta 0 0 s in
+  l = zip_next ids /\ chain_spec delta s 0 ids /\
+  (exists f r, ids = f :: r /\ delta <= travelled s 0 f /\ forall m, (m < f)%nat -> travelled s 0 m < delta).
+Proof.
+  intros H. destruct (id_pairs_select _ _ H) as [Ne E]. rewrite select_dispatch in E. injection E as E.
+  destruct (path_consecutive_chain ps delta (delta * rel_tol)) as (Eq & Cs & Fi). cbn zeta.
+  split; [now symmetry|]. split; [exact Cs|].
+  destruct (chain_ids delta 0 0 (consec_steps ps)) as [|f r]; [subst l; now elim Ne|].
+  exists f, r. split; [reflexivity|exact Fi].
+Qed.
+
+(* meters, all pairs: tolerance delta * rel_tol *)
+Theorem id_pairs_meters_all :
+  id_pairs_from_delta PI ps das ang delta dframes DMeters rel_tol true = Pairs l ->
+  path_all_spec (acc_dists ps) delta (delta * rel_tol) l.
+Proof.
+  intros H. destruct (id_pairs_select _ _ H) as [_ E]. rewrite select_dispatch in E. injection E as <-.
+  apply path_all_pairs_spec.
+Qed.
+
+(* radians / degrees, consecutive: the chain on the accumulated consecutive angles, from pose 0 *)
+Theorem id_pairs_angle_consecutive (degrees : bool) :
+  id_pairs_from_delta PI ps das ang delta dframes (if degrees then DDegrees else DRadians) rel_tol false = Pairs l ->
+  let d := to_rad degrees delta in
+  let ids := 0%nat :: chain_ids d 0 1 das in
+  0 <= delta <= (if degrees then 180 else PI) /\ l = zip_next ids /\ chain_spec d (0 :: das) 0 ids.
+Proof.
+  intros H. cbn zeta.
+  assert (E : pairs_by_angle PI (length ps) das ang delta (delta * rel_tol) degrees false = Pairs l).
+  { destruct degrees; destruct (id_pairs_select _ _ H) as [_ E]; rewrite select_dispatch in E; exact E. }
+  destruct (pairs_by_angle_spec (length ps) das ang delta (delta * rel_tol) degrees false) as [Bad Good].
+  cbn zeta in *.
+  assert (R0 : 0 <= delta <= (if degrees then 180 else PI)).
+  { destruct (Rlt_dec delta 0) as [L|L]; [rewrite Bad in E by (now left); discriminate|].
+    destruct (Rlt_dec (if degrees then 180 else PI) delta) as [L'|L']; [rewrite Bad in E by (now right); discriminate|]. lra. }
+  split; [exact R0|]. rewrite (Good R0) in E. injection E as <-.
+  destruct (angle_consecutive_chain das (to_rad degrees delta)) as [Eq Cs]. split; assumption.
+Qed.
+
+(* radians / degrees, all pairs: exactly the pairs whose direct angle lies within delta * (1 -+ rel_tol) *)
+Theorem id_pairs_angle_all (degrees : bool) :
+  id_pairs_from_delta PI ps das ang delta dframes (if degrees then DDegrees else DRadians) rel_tol true = Pairs l ->
+  forall i j, In (i, j) l <->
+    (i < j < length ps)%nat /\
+    to_rad degrees (delta * (1 - rel_tol)) <= ang i j <= to_rad degrees (delta * (1 + rel_tol)).
+Proof.
+  intros H i j.
+  assert (E : pairs_by_angle PI (length ps) das ang delta (delta * rel_tol) degrees true = Pairs l).
+  { destruct degrees; destruct (id_pairs_select _ _ H) as [_ E]; rewrite select_dispatch in E; exact E. }
+  destruct (pairs_by_angle_spec (length ps) das ang delta (delta * rel_tol) degrees true) as [Bad Good].
+  cbn zeta in *.
+  assert (R0 : 0 <= delta <= (if degrees then 180 else PI)).
+  { destruct (Rlt_dec delta 0) as [L|L]; [rewrite Bad in E by (now left); discriminate|].
+    destruct (Rlt_dec (if degrees then 180 else PI) delta) as [L'|L']; [rewrite Bad in E by (now right); discriminate|]. lra. }
+  rewrite (Good R0) in E. injection E as <-. rewrite angle_all_spec.
+  replace (to_rad degrees delta - to_rad degrees (delta * rel_tol)) with (to_rad degrees (delta * (1 - rel_tol)))
+    by (unfold to_rad; destruct degrees; ring).
+  replace (to_rad degrees delta + to_rad degrees (delta * rel_tol)) with (to_rad degrees (delta * (1 + rel_tol)))
+    by (unfold to_rad; destruct degrees; ring).
+  reflexivity.
+Qed.
+
+(* any other unit is the filter error *)
+Theorem id_pairs_other_unit all_pairs :
+  id_pairs_from_delta PI ps das ang delta dframes DOther rel_tol all_pairs = FilterError.
+Proof. reflexivity. Qed.
+End EndToEnd.
+
+(* the chain is determined by its specification: a strictly increasing index list that starts at the first
+   pose reaching delta, takes as next element the first pose reaching delta since the previous one, and is
+   maximal, is the model's chain *)
+Theorem chain_unique (delta : R) (s : list R) : forall (ids ids' : list nat) (from : nat),
+  chain_spec delta s from ids -> chain_spec delta s from ids' ->
+  hd_error ids = hd_error ids' -> ids = ids'.
+Proof.
+  intros ids. induction ids as [|a r IH]; intros ids' from C C' Hh.
+  - destruct ids'; [reflexivity|discriminate].
+  - destruct ids' as [|a' r']; [discriminate|]. injection Hh as <-. f_equal.
+    destruct C as [Cr Cs Cp Cm], C' as [Cr' Cs' Cp' Cm'].
+    inversion Cs as [|? ? Sr Fr]; subst. inversion Cs' as [|? ? Sr' Fr']; subst.
+    inversion Cr as [|? ? Ra Rr]; subst. inversion Cr' as [|? ? Ra' Rr']; subst.
+    (* the heads of the tails agree *)
+    assert (Hhd : hd_error r = hd_error r').
+    { destruct r as [|b t], r' as [|b' t']; [reflexivity| | |].
+      - exfalso. pose proof (Cp' a b' ltac:(rewrite zip_next_cons; now left)) as [Hb _].
+        rewrite Forall_forall in Fr', Rr'. specialize (Fr' b' (or_introl eq_refl)). specialize (Rr' b' (or_introl eq_refl)).
+        specialize (Cm ltac:(discriminate) b' ltac:(cbn; lia)). cbn [last] in Cm. lra.
+      - exfalso. pose proof (Cp a b ltac:(rewrite zip_next_cons; now left)) as [Hb _].
+        rewrite Forall_forall in Fr, Rr. specialize (Fr b (or_introl eq_refl)). specialize (Rr b (or_introl eq_refl)).
+        specialize (Cm' ltac:(discriminate) b ltac:(cbn; lia)). cbn [last] in Cm'. lra.
+      - pose proof (Cp a b ltac:(rewrite zip_next_cons; now left)) as [Hb Hb2].
+        pose proof (Cp' a b' ltac:(rewrite zip_next_cons; now left)) as [Hb' Hb2'].
+        rewrite Forall_forall in Fr, Fr'. specialize (Fr b (or_introl eq_refl)). specialize (Fr' b' (or_introl eq_refl)).
+        destruct (Nat.lt_trichotomy b b') as [L|[->|L]]; [|reflexivity|].
+        + specialize (Hb2' b ltac:(lia)). lra.
+        + specialize (Hb2 b' ltac:(lia)). lra. }
+    apply (IH r' a); [| |exact Hhd].
+    + constructor.
+      * rewrite Forall_forall in *. intros x Hx. specialize (Fr x Hx). specialize (Rr x Hx). cbn in Rr. lia.
+      * exact Sr.
+      * intros x y I. apply Cp. rewrite zip_next_cons. destruct r; [destruct I|]. now right.
+      * intros Nr m Hm. destruct r as [|b t]; [congruence|].
+        change (last (a :: b :: t) 0%nat) with (last (b :: t) 0%nat) in Cm. apply Cm; [discriminate|exact Hm].
+    + constructor.
+      * rewrite Forall_forall in *. intros x Hx. specialize (Fr' x Hx). specialize (Rr' x Hx). cbn in Rr'. lia.
+      * exact Sr'.
+      * intros x y I. apply Cp'. rewrite zip_next_cons. destruct r'; [destruct I|]. now right.
+      * intros Nr m Hm. destruct r' as [|b t]; [congruence|].
+        change (last (a :: b :: t) 0%nat) with (last (b :: t) 0%nat) in Cm'. apply Cm'; [discriminate|exact Hm].
+Qed.
